@@ -93,6 +93,31 @@ func c02r1(r *R) {
 		okFmt = f == "HTTP/%d.%d %03d %s\r\n" && len(va) == 4 && describe(va[0]) == "$1.ProtoMajor" && describe(va[1]) == "$1.ProtoMinor" && describe(va[2]) == "$1.StatusCode"
 	}
 	r.check(okFmt, "writeHeaderOnlyResponse#status-line", fn.Pos(), "HTTP/major.minor code reason CRLF from the response's own fields", "status line is not built from the response's protocol version and status")
+	// reason phrase: the origin's own, whenever it sent one (Response.Write, which writes replies with a body, does the same)
+	var phraseBad []string
+	nPhrase := 0
+	for _, p := range ps {
+		var text string
+		for k, v := range p.Mem {
+			if strings.HasPrefix(k, "local:varargs#") && strings.HasSuffix(k, "[3]") {
+				text = v
+			}
+		}
+		if text == "" {
+			continue
+		}
+		nPhrase++
+		switch {
+		case p.holds(`!($1.Status == "")`):
+			if !strings.Contains(text, "$1.Status,") && !strings.Contains(text, "$1.Status)") && text != "$1.Status" {
+				phraseBad = append(phraseBad, "the origin sent a status text but the phrase written is "+shorten(text, 90))
+			}
+		case p.holds(`($1.Status == "")`):
+		default:
+			phraseBad = append(phraseBad, "a path writes "+shorten(text, 60)+" without looking at the origin's status text")
+		}
+	}
+	r.check(nPhrase > 0 && len(phraseBad) == 0, "writeHeaderOnlyResponse#reason-phrase", fn.Pos(), "the origin's reason phrase is relayed when there is one", strings.Join(dedupStrings(phraseBad), "; "))
 	// CONNECT literal
 	p := r.pkg(mpkg)
 	g, _ := p.Members["connectOKResponse"].(*ssa.Global)
